@@ -476,6 +476,17 @@ func (f *FuncCtx) callFunc(fn *types.Func, recv *Val, recvExpr ast.Expr, e *ast.
 		return vs
 	}
 	// interface method or declared pure
+	if recv != nil && f.S.SortOf(recv.Typ) != "" {
+		// method declared by an embedded interface: view the receiver at the declaring interface
+		if r := fn.Type().(*types.Signature).Recv(); r != nil {
+			if _, isIface := r.Type().Underlying().(*types.Interface); isIface {
+				if _, vIface := recv.Typ.Underlying().(*types.Interface); vIface && f.S.SortOf(r.Type()) != f.sortOfVal(*recv) {
+					rv := f.box(*recv, r.Type())
+					recv = &rv
+				}
+			}
+		}
+	}
 	pureKeys := []string{key, short, full}
 	for _, al := range f.aliasesOf(pkgPath) {
 		pureKeys = append(pureKeys, al+"."+key)
